@@ -195,4 +195,22 @@ impl TopicAliasSend {
     pub fn max(&self) -> TopicAliasType {
         self.max_alias
     }
+
+    /// (alias, topic) pairs in LRU order and the free alias intervals (verification hook, read-only)
+    #[cfg(feature = "verif-hooks")]
+    #[allow(clippy::type_complexity)]
+    pub fn verif_entries(
+        &self,
+    ) -> (
+        alloc::vec::Vec<(TopicAliasType, String)>,
+        alloc::vec::Vec<(TopicAliasType, TopicAliasType)>,
+    ) {
+        (
+            self.alias_to_topic
+                .iter()
+                .map(|(a, t)| (*a, t.clone()))
+                .collect(),
+            self.value_allocator.verif_intervals(),
+        )
+    }
 }
